@@ -299,6 +299,18 @@ Section Lookback.
     destruct ((n <=? l) && (l <? n + zlen dists)) eqn:Hin; [lia|reflexivity].
   Qed.
 
+  (** default_event_label is an in-range class index that decodes, against any history, to the default event. *)
+  Theorem lookback_default_label evs :
+    valid dflt ->
+    exists c, lb_default_label E enc dflt = Some c /\ 0 <= c < lb_num_classes n dists /\
+              decode c evs = Some dflt.
+  Proof.
+    intros Hv. destruct (enc_ok dflt Hv) as (c & Hc & Hr & Hd). exists c.
+    pose proof (zlen_nonneg dists). unfold lb_default_label, lb_num_classes, lb_k.
+    split; [exact Hc|]. split; [lia|].
+    rewrite lookback_decode_out_of_range by (left; lia). exact Hd.
+  Qed.
+
   Variable steps : E -> Z.
   Variable bits : Z.
 
